@@ -144,6 +144,48 @@ def run(ctx):
                     violation(ctx, "implementation violates C04: kinetic energy %r of the fresh momentum is not 1/2 |v|^2 = %r" % (b2f(d["init"]["kinetic"]), kin),
                               {"case": {kk: vv for kk, vv in c.items() if kk != "words"}, "draw": k}, found_input=True)
     ctx.oblig("correspondence-momentum-fresh", nbad == 0, "%d draws" % nbad)
+    # (1b) the real normal fill (CpuMath::array_gaussian with a real ChaCha8 stream) behind the
+    # delegating backend: every coordinate of every dimension 1..=33 is written by every fill, two
+    # successive fills differ in every coordinate, and each coordinate has mean 0 / variance std^2
+    ok_k, out_k = build_harness(["kernels"])
+    ctx.oblig("harness-build-kernels", ok_k, out_k[-2000:])
+    if ok_k:
+        r = ctx.rnd()
+        dims_g = list(range(1, 12)) + [16, 17, 32, 33]
+        nseed = 120 if quick else 1000
+        gc = []
+        for n in dims_g:
+            stds = [r.choice([0.5, 1.0, 2.0, 3.0]) for _ in range(n)]
+            for k in range(nseed):
+                gc.append({"id": len(gc), "op": "gaussian", "n": n, "seed": r.getrandbits(48), "x": [str(f2b(v)) for v in stds], "stds": stds})
+        gouts, gerrs = run_harness_parallel("kernels", gc)
+        ctx.oblig("harness-run-gaussian", not gerrs and len(gouts) == len(gc), "\n".join(gerrs)[:1500])
+        acc = {}
+        ng = 0
+        for c in gc:
+            o = gouts.get(c["id"])
+            if not o or "panic" in o:
+                continue
+            ctx.evaluations += 1
+            a, b_ = [b2f(v) for v in o["v"]], [b2f(v) for v in o["v2"]]
+            for i in range(c["n"]):
+                if a[i] != a[i] or b_[i] != b_[i] or a[i] == b_[i]:
+                    ng += 1
+                    if ng <= 3:
+                        violation(ctx, "implementation violates C04: coordinate %d of a %d-dimensional momentum is not freshly drawn by array_gaussian (first fill %r, second fill %r; NaN = never written)" % (i, c["n"], a[i], b_[i]),
+                                  {"case": {k: v for k, v in c.items() if k != "x"}}, found_input=True)
+                    break
+                acc.setdefault((c["n"], i), []).extend([a[i] / c["stds"][i], b_[i] / c["stds"][i]])
+        for (n, i), xs in sorted(acc.items()):
+            m_ = sum(xs) / len(xs)
+            v_ = sum((x - m_) ** 2 for x in xs) / len(xs)
+            tol = 6.0 / math.sqrt(len(xs))
+            if ng == 0 and (abs(m_) > tol or abs(v_ - 1.0) > 1.5 * tol):
+                ng += 1
+                violation(ctx, "implementation violates C04: coordinate %d of %d-dimensional momenta has mean %.3f and variance %.3f (in units of its scale) over %d fills, not 0 / 1" % (i, n, m_, v_, len(xs)),
+                          {"dimension": n, "coordinate": i, "fills": len(xs)}, found_input=True)
+        stats["gaussian_fills"] = 2 * len(gc)
+        ctx.oblig("impl-audit-momentum-fill", ng == 0, "%d failures" % ng)
     # (2) search: moments of real runs
     sc = stat_cases(ctx, quick)
     souts, serrs = run_harness_parallel("schedule", sc, timeout=3000)
